@@ -733,6 +733,13 @@ pub fn generate(seed: u64, knobs: &Knobs) -> C10Scenario {
         }
         emitted += 1;
         let _ = only_removal_since_pass;
+        if knobs.layer == Layer::L2 && !ends_with_pass {
+            // simulated time between user operations: inside or across debounce windows
+            let ms = *rh.pick(&[0u64, 1, 100, 399, 401, 2000]);
+            if ms > 0 {
+                ops.push(Op::Wait { ms });
+            }
+        }
         if !ends_with_pass && rh.chance(1, 2) {
             ops.push(Op::Pass);
             since_pass = 0;
